@@ -12,48 +12,20 @@ Definition functional (g : graph) : Prop :=
 Definition fresh (g : graph) (new : ident) : Prop :=
   (forall e, In e g -> e_lbl e <> new) /\ is_super new = false.
 
-(* g' is g with relabelled edges: same edges in the same order, the label differs exactly on the edges p -> c *)
-Definition relabelled (g g' : graph) (p c : node) (new : ident) : Prop :=
+(* What assembling the edited text builds: the symbol c is known as `new` wherever it was known as `old` -- every
+   edge INTO c that carries `old` carries `new`; an alias (another label on another edge into c) is left alone. *)
+Definition relabel (g : graph) (c : node) (old new : ident) : graph :=
+  map (fun e => if Nat.eqb (e_dst e) c && ident_eqb (e_lbl e) old then mkEdge (e_src e) new c else e) g.
+
+(* g' is g with relabelled edges: same edges in the same order with the same endpoints *)
+Definition relabelled (g g' : graph) (c : node) (old new : ident) : Prop :=
   Forall2 (fun e e' => e_src e' = e_src e /\ e_dst e' = e_dst e /\
-                       e_lbl e' = if Nat.eqb (e_src e) p && Nat.eqb (e_dst e) c then new else e_lbl e) g g'.
+                       e_lbl e' = if Nat.eqb (e_dst e) c && ident_eqb (e_lbl e) old then new else e_lbl e) g g'.
 
-(* the text edit, identifier by identifier: an identifier of a path is replaced iff the resolving walk crosses an
-   edge p -> c there.  n = node the identifier is looked up in, l = the nodes reached after each identifier. *)
-Fixpoint ren_path (p c : node) (new : ident) (n : node) (l : list node) (pth : path) : path :=
+(* the text edit, identifier by identifier: an identifier of a path is replaced iff it is the old name and the
+   resolving walk reaches c with it.  l = the nodes reached after each identifier. *)
+Fixpoint ren_path (c : node) (old new : ident) (l : list node) (pth : path) : path :=
   match l, pth with
-  | t :: l', id :: pth' =>
-      (if negb (is_super id) && Nat.eqb n p && Nat.eqb t c then new else id) :: ren_path p c new t l' pth'
+  | t :: l', id :: pth' => (if Nat.eqb t c && ident_eqb id old then new else id) :: ren_path c old new l' pth'
   | _, _ => []
-  end.
-
-(* all edges p -> c carry the same label *)
-Definition uniform (g : graph) (p c : node) (old : ident) : Prop :=
-  forall e, In e g -> e_src e = p -> e_dst e = c -> e_lbl e = old.
-
-(* The class of the known finding F-C15a, on the handler's inputs: some usage of the symbol is not "plain".
-   A usage is plain when its text is one identifier that is `super`, or that resolves (bubbling allowed) from the
-   usage's recorded scope to the symbol itself, the resolving scope being the scope of the definition or the usage's
-   own.  The argument `x as y` of a specific import is not plain: as an identifier it resolves to nothing. *)
-Definition usage_plain (fuel : nat) (g : graph) (slice : Span -> path) (nx : node) (loc : DefinitionLocation)
-           (dl : DefinitionLocation) : bool :=
-  match slice (dl_span dl) with
-  | [id] =>
-      is_super id ||
-      match query_traversal_steps fuel g (parent_scope dl) [id] with
-      | Some steps =>
-          match last_symbol steps with
-          | Some t => Nat.eqb t nx &&
-                      (Nat.eqb (resolving_scope (parent_scope dl) steps) (parent_scope loc) ||
-                       Nat.eqb (resolving_scope (parent_scope dl) steps) (parent_scope dl))
-          | None => false
-          end
-      | None => false
-      end
-  | _ => false
-  end.
-
-Definition Known_import_alias (fuel : nat) (g : graph) (slice : Span -> path) (nx : node) (d : Def) : bool :=
-  match location d with
-  | Some loc => negb (forallb (usage_plain fuel g slice nx loc) (usages d))
-  | None => false
   end.
